@@ -30,7 +30,7 @@ without reference to what the generators draw). Wave 4 ({waves.get('4',0)} chang
 purpose and is marked as such: those agents were additionally told, in prose, which
 configurations, shapes, sizes and fault kinds the generators draw and were asked for changes such
 a checker would still miss - they are adversarial to the machinery, not independent of it. Wave 5
-({waves.get('5',0)} changes) and waves 6 and 7 ({waves.get('6',0)}+{waves.get('7',0)} changes) went back to the property text alone (plus the list of earlier
+({waves.get('5',0)} changes) and waves 6, 7 and 8 ({waves.get('6',0)}+{waves.get('7',0)}+{waves.get('8',0)} changes) went back to the property text alone (plus the list of earlier
 changes to avoid).
 "yes" = caught by the quick tier of the machinery as it was when the change arrived; "after
 strengthening" = first missed, then caught after the generator or oracle was extended (the last
@@ -51,7 +51,10 @@ oracle gaps (outcomes compared with the library's own evaluation; a prefix run o
 contain the entitled values) and four generator gaps (thresholds, date formats, dynamically
 typed JSON, sources out of date order); wave 7 one more seam gap (controlled workers all ran with
 the same GOMAXPROCS) and history/value classes again (a codec reused after a damaged document,
-repository errors other than the sentinel, long JSON documents, near-duplicate header names).
+repository errors other than the sentinel, long JSON documents, near-duplicate header names);
+wave 8 one oracle gap (C13's direct evaluation went through the helper under test) and value
+classes (bare carriage returns, defined field types, float32/int element types, names ending in
+the letters of the file suffix, all non-period parameters zero).
 
 | seeded change | wave | what it does | needs | caught at once? | check and verdict |
 |---|---|---|---|---|---|
